@@ -55,6 +55,12 @@ func (d dereference) rSchema(rs *regex.RSchema) {
 }
 
 func (d *dereference) jSchema(astNode schema.ASTNode) {
+	d.jSchemaNode(astNode, false)
+}
+
+// jSchemaNode handles a node of the schema, or (orItem) the stand-in node built for
+// an item of an "or" rule: such a node names a type and carries no example value.
+func (d *dereference) jSchemaNode(astNode schema.ASTNode, orItem bool) {
 	if rule, ok := astNode.Rules.Get("or"); ok {
 		for _, item := range rule.Items {
 			d.orItem(item)
@@ -66,6 +72,7 @@ func (d *dereference) jSchema(astNode schema.ASTNode) {
 	case schema.TokenTypeNumber, schema.TokenTypeString, schema.TokenTypeBoolean, schema.TokenTypeNull,
 		schema.TokenTypeArray:
 		info := newJSchemaInfoFromASTNode(astNode)
+		info.orItem = orItem
 		d.result.append(info)
 	case schema.TokenTypeObject:
 		info := newObjectInfo(astNode, d.userTypes)
@@ -92,5 +99,5 @@ func (d dereference) userType(name string) {
 
 func (d dereference) orItem(r schema.RuleASTNode) {
 	mockAstNode := internal.RuleToASTNode(r)
-	d.jSchema(mockAstNode)
+	d.jSchemaNode(mockAstNode, true)
 }
